@@ -99,10 +99,32 @@ use vcore::{
 
 // ------------------------------------------------------------------ the fixed script
 
-/// Unit gas schedule: the longest loop-free program (4 calls of B, each calling A) needs 47 gas;
-/// everything that loops is cut by OutOfGas after at most GAS_LIMIT instructions.
-const GAS_LIMIT: u64 = 48;
-const MAX_TRACE: usize = 64;
+/// The two worlds every program is run in.
+#[derive(Clone, Copy, PartialEq, Debug)]
+enum Sched {
+    /// `GasCosts::unit()`, gas limit 48: the longest loop-free program (4 calls of B, each calling
+    /// A) needs 47 gas; everything that loops is cut by OutOfGas after < 49 instructions.
+    Unit,
+    /// the default (non-uniform) schedule with an ample gas limit: gas-relevant per-transaction
+    /// state (hot/cold storage slots, ...) is observable in $ggas/$cgas, `gas_used` and the
+    /// receipts root. Programs whose uninterrupted run takes more than MAX_TRACE_DEFAULT steps
+    /// (the loops that only OutOfGas would end) are left to the unit world.
+    Default,
+}
+
+impl Sched {
+    fn name(self) -> &'static str {
+        match self {
+            Sched::Unit => "unit",
+            Sched::Default => "default",
+        }
+    }
+}
+
+const GAS_LIMIT_UNIT: u64 = 48;
+const MAX_TRACE_UNIT: usize = 64;
+const GAS_LIMIT_DEFAULT: u64 = 100_000;
+const MAX_TRACE_DEFAULT: usize = 96;
 
 /// instruction indices (from $is) of the fixed parts
 const PRELUDE: usize = 9;
@@ -153,7 +175,17 @@ fn letter_ins(l: usize, idx: usize) -> Instruction {
     }
 }
 
-fn code_a() -> Vec<Instruction> {
+fn code_a(s: Sched) -> Vec<Instruction> {
+    if s == Sched::Default {
+        // one storage slot (key = A's id at $fp) written, then read again with an instruction in
+        // between: the read is a HOT one in an uninterrupted run
+        return vec![
+            op::sww(RegId::FP, 0x15, RegId::ONE),
+            op::log(RegId::ONE, RegId::ZERO, RegId::ZERO, RegId::ZERO),
+            op::srw(0x16, 0x15, RegId::FP, 0),
+            op::ret(0x16),
+        ]
+    }
     vec![
         op::log(RegId::ONE, RegId::ZERO, RegId::ZERO, RegId::ZERO),
         // storage effect: mints 1 coin of A's sub-asset named by the first 32 bytes of its call frame
@@ -163,7 +195,19 @@ fn code_a() -> Vec<Instruction> {
     ]
 }
 
-fn code_b() -> Vec<Instruction> {
+fn code_b(s: Sched) -> Vec<Instruction> {
+    if s == Sched::Default {
+        // quad-word variant around a nested call of A: write slot, call, read it back, clear it
+        return vec![
+            op::swwq(RegId::FP, 0x15, RegId::FP, RegId::ONE),
+            op::call(r::CALL_A, RegId::ZERO, r::ASSET_BASE, RegId::CGAS),
+            op::cfei(32),
+            op::subi(0x16, RegId::SP, 32),
+            op::srwq(0x16, 0x15, RegId::FP, RegId::ONE),
+            op::scwq(RegId::FP, 0x15, RegId::ONE),
+            op::ret(RegId::ONE),
+        ]
+    }
     vec![
         op::log(RegId::ONE, RegId::ONE, RegId::ZERO, RegId::ZERO),
         // nested call of A (the callee keeps the script's pointer registers): A's breakpoints
@@ -175,23 +219,34 @@ fn code_b() -> Vec<Instruction> {
 
 struct Env {
     world: World,
+    sched: Sched,
+    gas_limit: u64,
+    max_trace: usize,
+    a_len: usize,
 }
 
-fn env() -> Env {
-    // unit gas schedule (every instruction 1 gas + 1 per unit of the size-dependent ones): keeps the
-    // out-of-gas loops short; the debugger does not look at the schedule
+fn env(sched: Sched) -> Env {
     let mut params = fuel_tx::ConsensusParameters::standard();
-    params.set_gas_costs(fuel_tx::GasCosts::unit());
+    if sched == Sched::Unit {
+        // every instruction 1 gas (+ 1 per unit of the size-dependent ones): keeps the out-of-gas loops short
+        params.set_gas_costs(fuel_tx::GasCosts::unit());
+    }
     use fuel_tx::ContractIdExt;
     let mut cfg = WorldCfg {
-        code_a: code_a(),
-        code_b: code_b(),
+        code_a: code_a(sched),
+        code_b: code_b(sched),
         params,
         ..WorldCfg::default()
     };
     let sub_id = fuel_types::SubAssetId::new(*A);
     cfg.balances.push((A, A.asset_id(&sub_id), 7));
-    Env { world: World::new(cfg) }
+    Env {
+        world: World::new(cfg),
+        sched,
+        gas_limit: if sched == Sched::Unit { GAS_LIMIT_UNIT } else { GAS_LIMIT_DEFAULT },
+        max_trace: if sched == Sched::Unit { MAX_TRACE_UNIT } else { MAX_TRACE_DEFAULT },
+        a_len: code_a(sched).len(),
+    }
 }
 
 struct Prog {
@@ -200,6 +255,10 @@ struct Prog {
     ready: Ready<Script>,
     /// script breakpoint locations (instruction indices), bit i of the script mask = locs[i]
     locs: Vec<usize>,
+    /// number of instructions (= breakpoint locations) of contract A in this world
+    a_len: usize,
+    /// contains callA / callB / callA1gas
+    has_call: bool,
 }
 
 fn prog(env: &Env, seq: &[u64]) -> Prog {
@@ -226,8 +285,10 @@ fn prog(env: &Env, seq: &[u64]) -> Prog {
     Prog {
         seq: seq.to_vec(),
         names: seq.iter().map(|l| LETTERS[*l as usize].to_string()).collect(),
-        ready: env.world.ready(script, GAS_LIMIT),
+        ready: env.world.ready(script, env.gas_limit),
         locs,
+        a_len: env.a_len,
+        has_call: seq.iter().any(|l| LETTERS[*l as usize].starts_with("call")),
     }
 }
 
@@ -306,7 +367,8 @@ fn loc_of(vm: &Vm) -> Loc {
 }
 
 /// `init_script` + step loop on `vm` (debugger never touched): state before each instruction.
-fn trace_of(vm: &mut Vm, ready: &Ready<Script>) -> Vec<TStep> {
+/// `None` when the run takes more than `max` steps.
+fn trace_of(vm: &mut Vm, ready: &Ready<Script>, max: usize) -> Option<Vec<TStep>> {
     vm.init_script(ready.clone()).expect("init_script");
     let mut t = Vec::new();
     loop {
@@ -318,22 +380,32 @@ fn trace_of(vm: &mut Vm, ready: &Ready<Script>) -> Vec<TStep> {
         let (s, in_call) = vmkit::step_ctx(vm);
         assert!(s != vmkit::Step::Debug, "reference trace must not see debug events");
         if vmkit::is_final(&s, in_call) {
-            return t
+            return Some(t)
         }
-        assert!(t.len() < MAX_TRACE, "trace longer than MAX_TRACE (gas limit should bound it)");
+        if t.len() >= max {
+            return None
+        }
     }
 }
 
-fn refs(env: &Env, p: &Prog) -> Refs {
+/// `None`: the uninterrupted run is longer than the world's step cap (default world only).
+fn refs(env: &Env, p: &Prog) -> Option<Refs> {
+    // traces: first transaction on a fresh VM; second after an uninterrupted first one
+    let mut tvm = fresh_vm(env);
+    let t1 = match trace_of(&mut tvm, &p.ready, env.max_trace) {
+        Some(t) => t,
+        None => {
+            assert!(env.sched == Sched::Default, "unit world: the gas limit must bound every run ({:?})", p.names);
+            return None
+        }
+    };
     // finals: two transactions on one VM
     let mut vm = fresh_vm(env);
     let s1 = transact_plain(&mut vm, &p.ready);
     let f1 = final_of(&vm, s1);
     let s2 = transact_plain(&mut vm, &p.ready);
     let f2 = final_of(&vm, s2);
-    // traces: first transaction on a fresh VM; second after an uninterrupted first one
-    let mut vm = fresh_vm(env);
-    let t1 = trace_of(&mut vm, &p.ready);
+    let vm = tvm;
     // harness sanity: the stepped receipts are a prefix of the uninterrupted ones
     assert!(
         f1.receipts.len() >= vm.receipts().len() && f1.receipts[..vm.receipts().len()] == *vm.receipts(),
@@ -342,16 +414,22 @@ fn refs(env: &Env, p: &Prog) -> Refs {
     );
     let mut vm = fresh_vm(env);
     let _ = transact_plain(&mut vm, &p.ready);
-    let t2 = trace_of(&mut vm, &p.ready);
+    let t2 = match trace_of(&mut vm, &p.ready, env.max_trace) {
+        Some(t) => t,
+        None => {
+            assert!(env.sched == Sched::Default, "unit world: the gas limit must bound every run ({:?})", p.names);
+            return None
+        }
+    };
     assert!(
         f2.receipts.len() >= vm.receipts().len() && f2.receipts[..vm.receipts().len()] == *vm.receipts(),
         "step-wise reference (2nd tx) disagrees with the uninterrupted run for {:?}",
         p.names
     );
-    Refs {
+    Some(Refs {
         fin: [f1, f2],
         trace: [t1, t2],
-    }
+    })
 }
 
 // ------------------------------------------------------------------ the debugged run
@@ -394,7 +472,7 @@ fn armed(p: &Prog, mode: &Mode) -> Vec<Loc> {
             v.push((ContractId::zeroed(), 4 * *l as u64));
         }
     }
-    for i in 0..code_a().len() {
+    for i in 0..p.a_len {
         if cm >> i & 1 == 1 {
             v.push((A, 4 * i as u64));
         }
